@@ -57,14 +57,16 @@ def run(tier, seed):
             ("referential actions", F.consts(WithHist="TRUE", TypeForms="{}", MaxCols=2, Opts=F.optset(*[("ref", r) for r in T.REFS] + [("null", "notnull")]),
                                              MaxOpts=2, ItemKinds='{"fk","cfk"}', ItemCols='{<<"a">>, <<"a","b">>}', MaxItems=1, Refs=allrefs)),
             ("inline checks", F.consts(WithHist="TRUE", TypeForms="{}", Opts=F.optset(("check", "c1"), ("null", "notnull"), ("default", "d1"), ("unique", "u")),
-                                       MaxOpts=3, ItemKinds='{"check","ccheck"}', MaxItems=1))]
-    seeds = [seed * 5 + i for i in range(1 if not thorough else 3)]
+                                       MaxOpts=3, ItemKinds='{"check","ccheck"}', MaxItems=1)),
+            ("check forms", F.consts(WithHist="TRUE", TypeForms="{}", MaxCols=2, Opts=F.optset(("check", "c1"), ("check", "c2"), ("null", "notnull")), MaxOpts=2,
+                                     ItemKinds='{"check","ccheck"}', CheckIds='{"e1","e3","e4","e5","e6","e7"}', MaxItems=2))]
+    seeds = [seed * 5 + i for i in range(2 if not thorough else 5)]
     total = uniq = 0
     sample = None
     for what, cs in gens:
         g = F.mc(cs, "generation " + what, timeout=1800)
         print(f"  gen {what}: {len(g.beh)} behaviours, TLC {g.wall:.1f}s", flush=True)
-        n, nu, nbad = F.compare(V, g.beh, seeds, what, keep)
+        n, nu, nbad = F.compare(V, g.beh, seeds, what, keep, layouts=("oneline", "multiline"))
         total += n
         uniq += nu
         tags = {}
